@@ -207,6 +207,23 @@ for _k, _c in EXTRA7.items():
     c0, n0, t0 = CLAIMS[_k]
     CLAIMS[_k] = (c0 + _c, n0, t0)
 
+EXTRA8 = {
+ "C02": "; the EVM keeper answers 'no such account' only after reading the address's bank balance",
+ "C03": "; the ante router returns success only through a route; rebuilt parameter sets copy every field from its namesake",
+ "C05": "; the flush before a precompile call never deletes self-destructed accounts (Flush vs Commit over one write-back loop)",
+ "C06": "; the ante router returns success only through a route",
+ "C07": "; From has one unconditional writer and arrives empty (C03 R5); the refund counter is journalled (C05 R4); selector slices in precompile RequiredGas/Run are length-guarded",
+ "C09": "; a merge never lowers the tracked delegated amount",
+ "C10": "; convertCoinNativeERC20 brackets the module's escrow before the coins are burned; the erc20 genesis recognises duplicate contracts by decoded address; the automatic conversion on IBC receive must be bounded by the packet (it is not: open known finding)",
+ "C12": "; the genesis validation rejects duplicate holders by decoded address and InitGenesis runs it before writing",
+ "C15": "; SELFDESTRUCT cannot remove an account that still has delegations or unbonding delegations",
+ "C16": "; caller-chosen allocation sizes are bounded and no panicking bech32 decoder is used",
+ "C17": "; BeginBlock resets the transient declared-gas counter; the integer floor is the ceiling of the decimal minimum",
+}
+for _k, _c in EXTRA8.items():
+    c0, n0, t0 = CLAIMS[_k]
+    CLAIMS[_k] = (c0 + _c, n0, t0)
+
 BUILT = json.load(open('/verif/tools/built.json'))
 
 m = {"version": 1,
